@@ -366,6 +366,11 @@ pub struct E2eCase {
 	pub sigterm: bool,
 	pub ignore: bool,
 	pub wrap: u8,
+	/// --map-signal: 0 none, 1 USR1:HUP, 2 the OTHER one of INT/TERM mapped to HUP, 3 the other one mapped to
+	/// itself, 4 the other one discarded (empty right side). The signal that is sent is never mapped, so it
+	/// must still quit.
+	#[serde(default)]
+	pub map: u8,
 }
 
 fn run_e2e(c: &E2eCase) -> Outcome {
@@ -377,8 +382,25 @@ fn run_e2e(c: &E2eCase) -> Outcome {
 		.env("HOME", logs.dir.path())
 		.arg("--quiet")
 		.arg("--stop-timeout=300ms")
-		.arg(format!("--wrap-process={}", ["group", "session", "none"][(c.wrap % 3) as usize]))
-		.arg("-n")
+		.arg(format!("--wrap-process={}", ["group", "session", "none"][(c.wrap % 3) as usize]));
+	let other = if c.sigterm { "INT" } else { "TERM" };
+	match c.map % 5 {
+		1 => {
+			cmd.arg("--map-signal=USR1:HUP");
+		}
+		2 => {
+			cmd.arg(format!("--map-signal={other}:HUP"));
+		}
+		3 => {
+			cmd.arg(format!("--map-signal={other}:{other}"));
+		}
+		4 => {
+			cmd.arg(format!("--map-signal={other}:"));
+		}
+		_ => {}
+	}
+	o.label(format!("map-signal:{}", ["none", "unrelated", "other->HUP", "other->itself", "other->discarded"][(c.map % 5) as usize]));
+	cmd.arg("-n")
 		.arg("--")
 		.arg(helper_path())
 		.args(["run", "--log"])
@@ -460,8 +482,8 @@ pub fn check(e: &Engine) {
 	e.require_label("quit", "armed-timer", 0.15);
 	e.explore(
 		"cli-signals",
-		LegOpts::realtime(e.tier.pick(8, 150), 4, "the real CLI supervising a helper, interrupted with SIGINT or SIGTERM: exits within the stop timeout (300 ms) + slack and leaves no process behind; command exits on / ignores the stop signal; wrap group / session / none"),
-		&|| (any::<bool>(), any::<bool>(), 0u8..3).prop_map(|(sigterm, ignore, wrap)| E2eCase { sigterm, ignore, wrap }).boxed(),
+		LegOpts::realtime(e.tier.pick(20, 300), 5, "the real CLI supervising a helper, interrupted with SIGINT or SIGTERM: exits within the stop timeout (300 ms) + slack and leaves no process behind; command exits on / ignores the stop signal; wrap group / session / none; --map-signal absent, for an unrelated signal, or for the other one of INT/TERM (mapped to HUP, to itself, or discarded) - the signal that is sent is never the mapped one, so it must still quit"),
+		&|| (any::<bool>(), any::<bool>(), 0u8..3, 0u8..5).prop_map(|(sigterm, ignore, wrap, map)| E2eCase { sigterm, ignore, wrap, map }).boxed(),
 		&run_e2e,
 	);
 	let _ = Path::new("");
